@@ -135,6 +135,8 @@ def run_spec(spec, knobs, choices=None, poll=True, drain_virtual=40.0,
                     loop.horizon = loop._now + S.horizon(spec)
                 if knobs["entry"] == "run":
                     run.value = top.run()
+                elif knobs["entry"] == "orchestrate":
+                    run.value = top.orchestrate()       # documented alias
                 else:
                     async def main():
                         return await top.co_run()
@@ -187,8 +189,11 @@ def run_spec(spec, knobs, choices=None, poll=True, drain_virtual=40.0,
             if run.outcome in ('ret', 'exc'):
                 # a later explicit shutdown must send nothing more
                 try:
-                    run.sd_value = ('ret', loop.run_until_complete(
-                        top.co_shutdown()))
+                    if knobs.get("sync_shutdown"):
+                        run.sd_value = ('ret', top.shutdown())
+                    else:
+                        run.sd_value = ('ret', loop.run_until_complete(
+                            top.co_shutdown()))
                 except (SimDeadlock, SimLivelock, SimHorizon) as exc:
                     run.sd_value = ('stuck', str(exc))
                 except Exception as exc:                # pylint: disable=W0703
